@@ -290,11 +290,122 @@ def scenario_for(cfg):
     return scenario
 
 
+# ------------------------------------------------------------------ a real KBinsDiscretizer as binner
+
+
+def _kb_class():
+    from sklearn.preprocessing import KBinsDiscretizer
+
+    class KB(KBinsDiscretizer):
+        """the real class (the dispatch code may test for it) with fixed uniform edges; transform follows the
+        documented rule -- bin = number of interior edges <= x -- on symbols (validated against the parent's
+        transform on and around every edge in this run)"""
+
+        EDGES = [0.0, 1.0, 2.0, 3.0]
+
+        def fit(self, X, y=None, sample_weight=None):
+            d = X.shape[1]
+            self.bin_edges_ = numpy.empty(d, dtype=object)
+            for j in range(d):
+                self.bin_edges_[j] = numpy.array(self.EDGES)
+            self.n_bins_ = numpy.array([len(self.EDGES) - 1] * d)
+            self.n_features_in_ = d
+            return self
+
+        def bin_of(self, v):
+            return sum(1 for e_ in self.EDGES[1:-1] if bool(v >= e_))
+
+        def transform(self, X):
+            nb = len(self.EDGES) - 1
+            m = numpy.zeros((len(X), nb * X.shape[1]), dtype=numpy.float64)
+            for r in range(len(X)):
+                for j in range(X.shape[1]):
+                    m[r, j * nb + self.bin_of(X[r, j])] = 1
+            return scipy.sparse.csr_matrix(m)
+
+    return KB
+
+
+def sc_kbins(cfg):
+    pe = loader.load("mlmodel.piecewise_estimator")
+    ntr, nq = cfg["train"], cfg["query"]
+
+    def scenario(C):
+        KB = _kb_class()
+        Local.log, Local.C, Local.classifier = [], C, False
+        if C.symbolic:
+            e = sx.cur()
+            xtr, xq = [e.real(f"x{i}") for i in range(ntr)], [e.real(f"q{i}") for i in range(nq)]
+            y = sx.sarr([e.real(f"y{i}") for i in range(ntr)])
+        else:
+            xtr = [float(C.inputs.get(f"x{i}", i + 0.5)) for i in range(ntr)]
+            xq = [float(C.inputs.get(f"q{i}", i + 1.0)) for i in range(nq)]
+            y = numpy.array([float(C.inputs.get(f"y{i}", 3.0 * i)) for i in range(ntr)])
+        for v in xtr + xq:
+            C.assume(v >= 0)
+            C.assume(v <= 3)
+        Xtr = numpy.empty((ntr, 1), dtype=object)
+        Xq = numpy.empty((nq, 1), dtype=object)
+        for i in range(ntr):
+            Xtr[i, 0] = xtr[i]
+        for i in range(nq):
+            Xq[i, 0] = xq[i]
+        if not C.symbolic:
+            Xtr, Xq = Xtr.astype(float), Xq.astype(float)
+        kb = KB(n_bins=3, encode="onehot", strategy="uniform")
+        est = pe.PiecewiseRegressor(binner=kb, estimator=Local())
+        rnd = _Rnd(C)
+        with harness.patched(pe, numpy=_NP(rnd), Parallel=make_parallel(False), delayed=lambda f: (lambda *a, **k: (f, a, k))):
+            est.fit(Xtr, y)
+            btr = [est.binner_.bin_of(v) for v in xtr]
+            bq = [est.binner_.bin_of(v) for v in xq]
+            mean = est.mean_estimator_
+            model_of = {}
+            for t in Local.log:
+                if t[0] is mean:
+                    continue
+                rows = [i for r_ in range(len(t[1])) for i in range(ntr) if t[1][r_, 0] is Xtr[i, 0] or (not C.symbolic and t[1][r_, 0] == Xtr[i, 0])]
+                bs = set(btr[i] for i in rows)
+                C.true(len(bs) == 1, "kbins/local-model-trained-on-exactly-its-bucket-rows", detail=(rows, btr))
+                if len(bs) == 1:
+                    b = bs.pop()
+                    C.true(sorted(set(rows)) == [i for i in range(ntr) if btr[i] == b], "kbins/local-model-trained-on-exactly-its-bucket-rows", detail=(rows, btr))
+                    model_of[b] = t[0]
+            C.true(sorted(model_of) == sorted(set(btr)), "kbins/every-non-empty-bucket-has-its-model")
+            pred = est.predict(Xq)
+            for i in range(nq):
+                model = model_of.get(bq[i], mean)
+                C.eq(pred[i], model._f("F", xq[i]), "kbins/predict(row)=the-model-of-the-cell-the-binner-puts-it-in(or-fallback)", detail=(i, bq[i]))
+
+    return scenario
+
+
+def _validate_kb():
+    """KB.transform == KBinsDiscretizer.transform (same edges) on, between and beyond the edges"""
+    from sklearn.preprocessing import KBinsDiscretizer
+
+    KB = _kb_class()
+    real = KBinsDiscretizer(n_bins=3, encode="onehot", strategy="uniform").fit(numpy.array([[0.0], [3.0]]))
+    pts = numpy.array([[v] for v in (-1.0, 0.0, 0.5, 1.0, 1.5, 2.0, 2.5, 3.0, 4.0)])
+    mine = KB(n_bins=3, encode="onehot", strategy="uniform").fit(pts)
+    same_edges = numpy.allclose(real.bin_edges_[0], mine.bin_edges_[0])
+    return same_edges and numpy.array_equal(real.transform(pts).toarray(), mine.transform(pts).toarray())
+
+
 def run_config(cfg):
+    if cfg.get("kind") == "kbins":
+        r = harness.run_scenario(sc_kbins(cfg), f"C08{cfg}", cfg=cfg, sig=lambda l: "reg/" + l, on_exception_label="raises")
+        if _validate_kb():
+            r["validated"] = r.get("validated", 0) + 1
+        else:
+            r.setdefault("errors", []).append("the discretiser model disagrees with sklearn's KBinsDiscretizer.transform")
+        return r
     return harness.run_scenario(scenario_for(cfg), f"C08{cfg}", cfg=cfg, sig=lambda l: ("clf/" if cfg["classifier"] else "reg/") + l, on_exception_label="raises")
 
 
 def replay(cfg, inputs, label):
+    if cfg.get("kind") == "kbins":
+        return harness.replay_scenario(sc_kbins(cfg), inputs, label, "raises")
     return harness.replay_scenario(scenario_for(cfg), inputs, label, "raises")
 
 
@@ -315,6 +426,9 @@ def configs(tier):
             out.append(dict(classifier=True, binner=binner, reverse=False, weighted=seed == 7, train=3, query=1, buckets=2, seed=seed, n_jobs=3 if seed == 0 else None))
     if tier != "quick":
         out.append(dict(classifier=True, binner="tree", reverse=True, weighted=True, train=4, query=1, buckets=2, seed=0))
+    out.append(dict(kind="kbins", classifier=False, train=2, query=1))
+    if tier != "quick":
+        out.append(dict(kind="kbins", classifier=False, train=3, query=2))
     return out
 
 
